@@ -162,19 +162,27 @@ Theorem C17_reject_refuse_unknown : forall reason xid s,
 Proof. exact reject_refuse_unknown. Qed.
 Print Assumptions C17_reject_refuse_unknown.
 
-(* a contact header with the wrong magic or version closes the connection *)
+(* a contact header with the wrong magic or version closes the connection; like
+   every close it first reports the transfers that were never started
+   (send_bundle_finished(id, 0, 'session terminating') for each), sends nothing *)
 Theorem C17_bad_contact_closes : forall c s,
   contact_ok c = false ->
   let s' := fst (recv_frame (FContact c) s) in
   snd (recv_frame (FContact c) s) = None /\ closed s' = true /\ sent s' = sent s
-  /\ (closed s = false -> trace s' = trace s ++ [EClosed]).
+  /\ (closed s = false ->
+      trace s' = (trace s ++ map (fun it : N * bytes =>
+                                   ESig SigSendFinished [PStrNum (fst it); PInt 0; PStr RES_TERMINATING])
+                                (pend_start s)) ++ [EClosed]).
 Proof. exact bad_contact_closes. Qed.
 Print Assumptions C17_bad_contact_closes.
 
 Example C17_bad_contact_nonvacuous :
-  let s := run c17_cfg [OStart; ORx ([100; 116; 110; 63] ++ [4; 0])] in
-  closed s = true /\ trace s = [ESig SigState [PStr ST_CONTACT]; EClosed].
-Proof. vm_compute. split; reflexivity. Qed.
+  let s := run c17_cfg [OStart; OSend [1]; ORx ([100; 116; 110; 63] ++ [4; 0])] in
+  closed s = true
+  /\ trace s = [ESig SigState [PStr ST_CONTACT]; ERet 1 (PStrNum 1);
+                ESig SigSendFinished [PStrNum 1; PInt 0; PStr RES_TERMINATING]; EClosed]
+  /\ q_tx_queue s = [].
+Proof. vm_compute. repeat split. Qed.
 
 (* recorded finding: an unknown message type never completes *)
 Theorem C17_unknown_type_stalls : forall id rest,
